@@ -39,6 +39,7 @@ func main() {
 	goarch := flag.String("goarch", "", "GOARCH to analyse under (default: host)")
 	list := flag.Bool("list", false, "list obligations")
 	replay := flag.String("replay", "", "violation file: re-decide only that obligation")
+	extraPath := flag.String("extra", "", "JSON object merged into the evidence coverage (thorough tier results)")
 	flag.Parse()
 	start := time.Now()
 
@@ -124,7 +125,13 @@ func main() {
 				fmt.Printf("%-10s %-18s %-70s %-22s %s\n", o.Status, o.Rule, o.Key, o.Pos, o.Reason)
 			}
 		}
-		code := c.finish(kf, filepath.Join(*evdir, id+".json"), p.explanation, start, seed, nil)
+		var extra map[string]any
+		if *extraPath != "" {
+			if b, err := os.ReadFile(*extraPath); err == nil {
+				json.Unmarshal(b, &extra)
+			}
+		}
+		code := c.finish(kf, filepath.Join(*evdir, id+".json"), p.explanation, start, seed, extra)
 		if code > exit {
 			exit = code
 		}
